@@ -286,6 +286,13 @@ func evalC16(c c16Case, o *Obs) error {
 			if err != nil || *h != txHash[op.I] {
 				return fmt.Errorf("%s = %v, %v; fresh computation %v", via, h, err, txHash[op.I])
 			}
+			// repeated calls return the same object - the cached hash of the wrapped transaction - not copies
+			if h2, _ := b.TxHash(op.I); h2 != h {
+				return fmt.Errorf("%s: a second call returns another hash object", via)
+			}
+			if t, err := b.Tx(op.I); err != nil || t.Hash() != h {
+				return fmt.Errorf("%s: Tx(%d).Hash() is not the hash object TxHash(%d) returned", via, op.I, op.I)
+			}
 			sawTx = true
 		case "transactions":
 			ts := b.Transactions()
@@ -481,6 +488,75 @@ func genC16(t *rapid.T) c16Case {
 
 var kC16 = register(&Kind[c16Case]{Prop: "C16", Name: "block", Gen: genC16, Eval: evalC16})
 
+// ---- kind: bytes that the wire decoder accepts but would not write that way ---------------------
+// A block (or transaction) built from bytes keeps those bytes.  If they are a non-canonical rendering - here:
+// an output script that looks like a CashToken prefix with an all-zero category, which the decoder takes for
+// token data and the encoder then drops - the wrapper must still be consistent with ITS bytes: Bytes() is
+// the input, the transaction locations delimit the transactions inside it, and re-parsing gives the same block.
+
+type c16Raw struct {
+	NTx   int `json:"ntx"`
+	Which int `json:"which"` // transaction that carries the odd output
+	Salt  int `json:"salt"`
+}
+
+func evalC16Raw(c c16Raw, o *Obs) error {
+	if c.NTx < 1 || c.NTx > 50 {
+		return hbug("ntx")
+	}
+	msg := wire.NewMsgBlock(&wire.BlockHeader{Version: 3, Bits: 0x1d00ffff, Nonce: uint32(c.Salt)})
+	for i := 0; i < c.NTx; i++ {
+		tx := buildC16Tx(c16TxSpec{NIn: 1, NOut: 2, ScriptLen: 10, Salt: c.Salt + i}, i)
+		if i == c.Which%c.NTx {
+			odd := append(append([]byte{wire.PREFIX_BYTE}, make([]byte, 32)...), 0x10, 0x01, 0x51, 0x52)
+			tx.AddTxOut(wire.NewTxOut(4242, odd, wire.TokenData{}))
+		}
+		msg.AddTransaction(tx)
+	}
+	raw, err := serializeBlock(msg)
+	if err != nil {
+		return hbug("serialize: %v", err)
+	}
+	b, err := bchutil.NewBlockFromBytes(append([]byte{}, raw...))
+	if err != nil {
+		o.Class("C16:noncanonical-rejected-by-the-decoder")
+		return nil
+	}
+	o.NT()
+	o.Class("C16:noncanonical-bytes-accepted")
+	if fresh, err := serializeBlock(b.MsgBlock()); err == nil && !bytes.Equal(fresh, raw) {
+		o.Class("C16:noncanonical-bytes-differ-from-a-fresh-serialisation")
+	}
+	got, err := b.Bytes()
+	if err != nil || !bytes.Equal(got, raw) {
+		return fmt.Errorf("NewBlockFromBytes(%d bytes).Bytes() returns %d bytes (err %v): not the bytes the block was made from", len(raw), len(got), err)
+	}
+	locs, err := b.TxLoc()
+	if err != nil || len(locs) != c.NTx {
+		return fmt.Errorf("TxLoc() on a block made from %d accepted bytes: %d locations, err %v", len(raw), len(locs), err)
+	}
+	for i, l := range locs {
+		if l.TxStart < 0 || l.TxLen <= 0 || l.TxStart+l.TxLen > len(raw) {
+			return fmt.Errorf("TxLoc()[%d] = (%d,%d) lies outside the %d bytes of the block", i, l.TxStart, l.TxLen, len(raw))
+		}
+		t, err := bchutil.NewTxFromBytes(raw[l.TxStart : l.TxStart+l.TxLen])
+		bt, _ := b.Tx(i)
+		if err != nil || bt == nil || *t.Hash() != *bt.Hash() {
+			return fmt.Errorf("TxLoc()[%d] = (%d,%d) does not delimit transaction %d inside the block's bytes (err %v)", i, l.TxStart, l.TxLen, i, err)
+		}
+	}
+	b2, err := bchutil.NewBlockFromBytes(got)
+	if err != nil || *b2.Hash() != *b.Hash() || len(b2.Transactions()) != c.NTx {
+		return fmt.Errorf("the block does not re-parse from its own Bytes() (err %v)", err)
+	}
+	return nil
+}
+
+var kC16Raw = register(&Kind[c16Raw]{Prop: "C16", Name: "noncanonical", Eval: evalC16Raw,
+	Gen: func(t *rapid.T) c16Raw {
+		return c16Raw{NTx: rapid.IntRange(1, 12).Draw(t, "ntx"), Which: rapid.IntRange(0, 11).Draw(t, "which"), Salt: rapid.IntRange(0, 200).Draw(t, "salt")}
+	}})
+
 // ---- kind: tx -----------------------------------------------------------------------
 
 type c16TxCase struct {
@@ -591,6 +667,7 @@ func TestC16(t *testing.T) {
 			"bchd wire serialisation / hashing is the definition of 'fresh computation'")
 		kC16.Run(t, ev, perShard(pick(3000, 1500000)))
 		kC16Tx.Run(t, ev, perShard(pick(1500, 750000)))
+		kC16Raw.Run(t, ev, perShard(pick(200, 20000)))
 		ev.requireClasses("C16:ctor=0", "C16:ctor=1", "C16:ctor=2", "C16:ctor=3", "C16:sparse-cache-then-all",
 			"C16:out-of-range-index", "C16:empty-block", "C16:block-with-token-data", "C16:tx-ctor=1", "C16:sibling-block-interleaved", "C16:tx-input-with-trailing-bytes")
 	})
